@@ -268,6 +268,8 @@ class Hub:
             return []
         ev, mon = ent
         st = mon.state.get(iid)
+        if st in ("WAIT", "POPPED"):
+            mon.cancel_called[iid] = st  # client boundary: the sender called cancel() while the item was queued
         if st == "WAIT":
             head = mon.rp.inner.peek()
             self.res.count("cancels_while_waiting_at_head" if head is ev else "cancels_while_waiting_behind_head")
@@ -340,6 +342,7 @@ class QRMon:
         self.hw = None
         self.overcommitted: set = set()
         self.ev: dict = {}  # id -> the event object this stage's queue holds / held
+        self.cancel_called: dict = {}  # id -> ledger state at the moment its sender called cancel()
         self.polled_while_full: set = set()
         self.over_reported = False
         self.rsink = None
@@ -538,6 +541,15 @@ class QRMon:
                     self._check_patience(iid, t, True)
                 elif self._set(iid, "START", ("POPPED",), t, "started"):
                     self.start_ns[iid] = t
+                    if iid in self.cancel_called:
+                        was = "waiting in the queue" if self.cancel_called[iid] == "WAIT" else "in the dequeue->worker hand-off"
+                        self.hub.add(
+                            "ledger",
+                            self.cls,
+                            "cancelled-while-queued-item-started-service",
+                            f"id {iid}: its sender called Event.cancel() while it was {was} (cancelled={ev.cancelled} now), yet it reached the worker and started at t={t}ns",
+                            {"id": iid, "t_ns": t},
+                        )
                     if self.kind == "reneging":
                         self._check_patience(iid, t, False)
                     self._check_start(iid, t, c)
@@ -694,7 +706,7 @@ class QRMon:
                 sched_free = False
                 if self.sched is not None and not free:
                     sched_free = ins < self.sched.capacity_at(t / 1e9)
-                live_wait = sum(1 for i, s in self.state.items() if s == "WAIT" and not (i in self.ev and self.ev[i].cancelled))
+                live_wait = sum(1 for i, s in self.state.items() if s == "WAIT" and not (i in self.cancel_called or (i in self.ev and self.ev[i].cancelled)))
                 if (free or sched_free) and live_wait - internal > 0:
                     raised = self.varying and self.limit_raised_since_pop
                     if sched_free:
@@ -1126,6 +1138,30 @@ class GateMon(_CounterMon):
         self.held: list = []
         self.max_held = 0
         self._bind()
+        # Expected state from the documented schedule, only where it is unambiguous: no open()/close()
+        # commands, windows sorted and without positive overlap (touching / zero-length at a
+        # boundary are fine: within one (open, close) pair the open is created first).
+        wins = [(a, b) for a, b in spec.get("schedule", [])]
+        self.sched_wins = None
+        if not spec.get("cmds") and wins == sorted(wins) and all(a <= b for a, b in wins):
+            ok = True
+            for i, (a1, b1) in enumerate(wins):
+                for a2, b2 in wins[i + 1 :]:
+                    if max(a1, a2) < min(b1, b2):
+                        ok = False  # positive overlap
+                    if (a1 == b1 and a2 < a1 < b2) or (a2 == b2 and a1 < a2 < b1):
+                        ok = False  # zero-length window strictly inside another
+            if ok:
+                self.sched_wins = [(ns(a), ns(b)) for a, b in wins]
+
+    def _scheduled_open(self, t):
+        """(open?, back_to_back?) at the end of instant t according to the schedule."""
+        for a, b in self.sched_wins:
+            if a <= t < b:
+                return True, any(b2 == a and a2 < b2 for a2, b2 in self.sched_wins)
+        if all(t < a for a, _ in self.sched_wins):
+            return bool(self.spec.get("initially_open", True)) and all(t < b for _, b in self.sched_wins), False
+        return False, False
 
     def _counters(self):
         c = self.comp
@@ -1188,6 +1224,19 @@ class GateMon(_CounterMon):
         qcap = self.spec.get("qcap", 0)
         if qcap > 0 and depth > qcap:
             hub.add("capacity", self.cls, "wait-queue-above-capacity", f"queue_depth={depth} queue_capacity={qcap}", w)
+        if self.sched_wins is not None:
+            want, b2b = self._scheduled_open(t)
+            hub.res.count("gate_schedule_checks")
+            if b2b:
+                hub.res.count("gate_instants_in_back_to_back_window")
+            if want and depth > 0:
+                hub.add(
+                    "stranded",
+                    self.cls,
+                    "held-inside-scheduled-open-window" + ("-back-to-back-windows" if b2b else ""),
+                    f"queue_depth={depth}, is_open={is_open} at the end of t={t}ns although the schedule {self.spec.get('schedule')} (ticks) has the gate open",
+                    w,
+                )
         if depth > 0:
             hub.res.count("conservation_checks")
             if is_open:
@@ -1387,11 +1436,30 @@ def gen_stage(rng: random.Random, kind: str, horizon: int) -> dict:
         s["cap"] = rng.choice([0, 1, 2, 3])
         s["svc"] = s["svc"][:1]
     elif kind == "gate":
-        edges = sorted(rng.sample(range(0, horizon + 10), rng.choice([0, 2, 4])))
-        s["schedule"] = [[edges[i], edges[i + 1]] for i in range(0, len(edges), 2)]
+        mode = rng.choice(["separate", "separate", "touching", "touching", "zero", "overlap"])
+        if mode == "separate":
+            edges = sorted(rng.sample(range(0, horizon + 10), rng.choice([0, 2, 4])))
+            sched = [[edges[i], edges[i + 1]] for i in range(0, len(edges), 2)]
+        else:
+            k = rng.choice([2, 2, 3, 4])
+            edges = sorted(rng.sample(range(0, horizon + 10), min(k + 1, horizon + 10)))
+            sched = [[edges[i], edges[i + 1]] for i in range(len(edges) - 1)]  # end of one == start of next
+            if mode == "touching" and len(sched) > 2 and rng.random() < 0.4:
+                del sched[rng.randrange(1, len(sched) - 1)]  # a gap in the middle of the chain
+            if mode == "zero" and sched:
+                p = rng.choice(edges)
+                sched.append([p, p])  # zero-length window on a boundary instant
+                if rng.random() < 0.3:
+                    q = rng.randrange(0, horizon + 10)
+                    sched.append([q, q])
+            if mode == "overlap" and sched:
+                a, b = rng.choice(sched)
+                sched.append([a, b] if rng.random() < 0.3 else [a, b + rng.choice([1, 2, 3])])
+            sched.sort()
+        s["schedule"] = sched
         s["initially_open"] = rng.random() < 0.5
         s["qcap"] = rng.choice([0, 0, 2, 4])
-        s["cmds"] = sorted([rng.randrange(0, horizon + 10), rng.choice(["open", "close"])] for _ in range(rng.choice([0, 0, 1, 3])))
+        s["cmds"] = sorted([rng.randrange(0, horizon + 10), rng.choice(["open", "close"])] for _ in range(rng.choice([0, 0, 0, 1, 3])))
     return s
 
 
@@ -1404,6 +1472,16 @@ def gen_case(rng: random.Random, kinds, topo="single") -> dict:
         pool = kinds if i == nst - 1 else tuple(k for k in kinds if k != "threadpool") or kinds
         stages.append(gen_stage(rng, rng.choice(pool), horizon))
     arrivals = gen_arrivals(rng, n, horizon)
+    gate = next((st for st in stages if st["kind"] == "gate" and st.get("schedule")), None)
+    if gate is not None and rng.random() < 0.7:
+        pts = set()
+        for a, b in gate["schedule"]:
+            pts.update({a, b, (a + b) // 2, max(0, a - 1), b + 1, a + 1 if a + 1 < b else a})
+        pts = sorted(pts)
+        for a in arrivals:
+            if rng.random() < 0.8:
+                a["t"] = rng.choice(pts)
+                a["dl"] = a["t"] + rng.choice([0, 1, 2, 4, 8, 30])
     cancels = []
     if rng.random() < 0.35:
         for _ in range(rng.choice([1, 1, 2, 3])):
